@@ -737,7 +737,14 @@ impl<W: Write, F: AvroFormat> Writer<W, F> {
             Some(&sync) => self.write_ocf_block(batch, &sync),
             None => self.write_stream(batch),
         };
-        res.inspect_err(|e| self.failed = matches!(e, AvroError::IoError(_, _)))
+        res.inspect_err(|e| {
+            // I/O errors of the sink also surface as `External` (through `From<io::Error>`)
+            self.failed = match e {
+                AvroError::IoError(_, _) => true,
+                AvroError::External(inner) => inner.is::<std::io::Error>(),
+                _ => false,
+            }
+        })
     }
 
     /// A convenience method to write a slice of [`RecordBatch`].
